@@ -24,7 +24,7 @@ async def scenario(env, cfg):
     ch = AsyncChannel(buffer_limit=limit)
     loop = asyncio.get_running_loop()
     gates = {}
-    log = {"recv": {}, "sent": [], "rejected": [], "ended": {}, "closed": False, "late_send": []}
+    log = {"recv": {}, "sent": [], "rejected": [], "ended": {}, "closed": False, "late_send": [], "sent_before_close": []}
 
     def gate(name):
         f = loop.create_future()
@@ -37,6 +37,8 @@ async def scenario(env, cfg):
             try:
                 await ch.send_from([(sid, i) for i in range(items)])
                 log["sent"] += [(sid, i) for i in range(items)]
+                if not log["closed"]:
+                    log["sent_before_close"] += [(sid, i) for i in range(items)]
             except ChannelClosed:
                 log["rejected"] += [(sid, i) for i in range(items)]
             return
@@ -46,6 +48,8 @@ async def scenario(env, cfg):
             try:
                 await ch.send((sid, i))
                 log["sent"].append((sid, i))
+                if not log["closed"]:
+                    log["sent_before_close"].append((sid, i))  # the send completed before the channel was closed
                 if was_closed:
                     log["late_send"].append((sid, i))
             except ChannelClosed:
@@ -54,6 +58,24 @@ async def scenario(env, cfg):
     async def receiver(rid, mode):
         got = log["recv"].setdefault(rid, [])
         try:
+            if mode in ("receive-free", "iter-free"):
+                # only the start is gated: afterwards the receiver runs as fast as the loop lets it (it re-blocks in the same tick)
+                await gate("r%d" % rid)
+                if mode == "iter-free":
+                    async for x in ch:
+                        got.append(x)
+                    log["ended"][rid] = "end-of-iteration"
+                    return
+                while True:
+                    try:
+                        x = await ch.receive()
+                    except ChannelDone:
+                        log["ended"][rid] = "ChannelDone"
+                        return
+                    if x is None:
+                        log["ended"][rid] = "None"
+                        return
+                    got.append(x)
             if mode == "iter":
                 await gate("r%d" % rid)
                 async for x in ch:
@@ -158,7 +180,10 @@ def h_channel(env):
     env.check("nothing-received-twice", len(set(received)) == len(received), repr(received))
     env.check("nothing-invented", set(received) <= set(log["sent"]) | set(log["rejected"]) and not (set(received) & set(log["rejected"])), repr(received))
     if not stuck and not errors:
-        env.check("every-completed-send-received-exactly-once", sorted(received) == sorted(log["sent"]), "sent %r received %r" % (log["sent"], received))
+        # the guarantee covers items whose send completed before close(); a send that was blocked on a full buffer and completes
+        # after close() may or may not be delivered (never twice: checked above)
+        missing = [x for x in log["sent_before_close"] if x not in received]
+        env.check("every-send-completed-before-close-received-exactly-once", not missing, "sent before close %r, received %r" % (log["sent_before_close"], received))
     for rid, got in log["recv"].items():
         for sid in range(len(cfg["senders"])):
             seq = [i for (s, i) in got if s == sid]
@@ -189,7 +214,12 @@ def units(tier):
     add("1 sender x2 | 2 receivers, cancel r0", senders=[(2, "send")], receivers=["receive", "receive"], steps=6, cancel="r0")
     add("1 sender x1 | 1 receiver, cancel r0", senders=[(1, "send")], receivers=["receive"], steps=4, cancel="r0")
     add("1 sender x2 | iterator + receiver, cancel r0", senders=[(2, "send")], receivers=["iter", "receive"], steps=6, cancel="r0")
+    add("1 sender x2 | 2 free-running receivers", senders=[(2, "send")], receivers=["receive-free", "receive-free"], steps=6)
+    add("1 sender x2 | free receiver + free iterator", senders=[(2, "send")], receivers=["receive-free", "iter-free"], steps=6)
+    add("2 senders x1 | 2 free-running receivers, cancel r0", senders=[(1, "send"), (1, "send")], receivers=["receive-free", "receive-free"], steps=6, cancel="r0")
+    add("send_from x2 | 2 free-running receivers", senders=[(2, "send_from")], receivers=["receive-free", "receive-free"], steps=5)
     if tier == "thorough":
+        add("1 sender x3 | 2 free-running receivers", senders=[(3, "send")], receivers=["receive-free", "receive-free"], steps=8)
         add("1 sender x3 | 2 receivers", senders=[(3, "send")], receivers=["receive", "receive"], steps=8)
         add("2 senders x2 | 2 receivers", senders=[(2, "send"), (2, "send")], receivers=["receive", "receive"], steps=8)
         add("1 sender x2 | 3 receivers", senders=[(2, "send")], receivers=["receive", "receive", "iter"], steps=8)
@@ -201,7 +231,7 @@ def units(tier):
 BUDGET = {"quick": 200, "thorough": 2400}
 UNIT_PATH_CAP = {"quick": 6000, "thorough": 200000}
 BOUNDS = {
-    "quick": "configurations: 1-2 senders x 1-2 items (send or send_from), 1-2 receivers (receive() loop or async-for), one closer, optionally cancellation of one "
+    "quick": "configurations: 1-2 senders x 1-2 items (send or send_from), 1-2 receivers (receive() loop or async-for, gated before every receive or free-running after the first gate), one closer, optionally cancellation of one "
     "receiver at any point; buffer limit symbolic in 0..3 (0 = unbounded); 4-6 driver decisions (which gated actor proceeds next / cancel, and whether the loop runs "
     "before the next decision), then a drain phase that releases every remaining gate; every schedule of the decision tree, 6000 paths per unit",
     "thorough": "up to 3 items / 3 receivers, 8 driver decisions, 200000 paths per unit",
